@@ -876,6 +876,9 @@ class PolyhedralTermList(TermList):  # noqa: WPS338
             ValueError: Constraints are likely unfeasible.
         """
         obj = PolyhedralTermList([PolyhedralTerm(variables=objective, constant=0)])
+        if self.lacks_constraints():
+            # every behavior is feasible: a nonzero objective is unbounded in both directions
+            return None if obj.vars else 0
         _, self_mat, self_cons, obj_mat, _ = PolyhedralTermList.termlist_to_polytope(self, obj)  # noqa: WPS236
         polarity = 1
         if maximize:
